@@ -333,6 +333,8 @@ class Exec:
             return z3.And(*[self.equal(p, q, st, node) for p, q in zip(x.items, y.items)]) if x.items else z3.BoolVal(True)
         if isinstance(x, ClsV) and isinstance(y, ClsV):
             return z3.BoolVal(x.name == y.name)
+        if isinstance(x, MapV) and isinstance(y, MapV):
+            return x.arr == y.arr
         if isinstance(x, ObjV) and isinstance(y, ObjV):
             if "__id__" in x.fields and "__id__" in y.fields:
                 return x.fields["__id__"] == y.fields["__id__"]
@@ -361,6 +363,14 @@ class Exec:
             r = f(self, x, y, st)
             if r is not None:
                 return r
+        if isinstance(y, Opt):
+            y = y.val if spec else self.need_not_none(y, st, node, "in")
+        if isinstance(x, PyConst) and isinstance(x.v, str) and isinstance(y, (StrV, PyConst)):
+            # substring test with a constant needle: uninterpreted predicate of the haystack
+            if isinstance(y, PyConst):
+                return z3.BoolVal(x.v in y.v)
+            fn = z3.Function("HAS_SUBSTR[" + x.v + "]", AII, I, B)
+            return fn(y.arr, y.n)
         raise Unsupported(f"`in` on {y!r} at line {getattr(node, 'lineno', '?')}")
 
     def e_Compare(self, n, st, spec, b):
